@@ -3,6 +3,7 @@ import FtdcVerif.Lemmas.Window
 import FtdcVerif.Lemmas.HdrMinMax
 import FtdcVerif.Lemmas.HdrMergeX
 import FtdcVerif.Lemmas.HdrMean
+import FtdcVerif.Lemmas.CodeTie
 /-!
 # C13 — quantiles, merges, windows and snapshots agree with an exact oracle
 
@@ -563,5 +564,35 @@ theorem window_merge_is_last_n_windows {minV : Int} {maxV s : Nat} (hv : Valid m
 /-! non-vacuity -/
 example : import_ (export_ (recordAll (new 1 100 2) [5, 5, 99, 1000, -3])) =
     recordAll (new 1 100 2) [5, 5, 99, 1000, -3] := import_export_identity _ _ _ _
+
+/-! ### The Go text itself (regenerated)
+
+The value a quantile, `Max`, `Min` or `Mean` reports is computed by `valueFromIndex`, `lowestEquivalentValue`,
+`highestEquivalentValue` and `medianEquivalentValue` of hdr.go.  These are translated from the Go source on every run
+(Gen/Code.lean, 32-bit arithmetic exact) and equal the model's functions the theorems above speak about. -/
+theorem go_value_functions_are_model {minV : Int} {maxV s : Nat} (hv : Valid minV maxV s) (v : Nat) (h63 : v < 2 ^ 63)
+    (b sub : Nat) :
+    let h := new minV maxV s
+    Gen.Hdr.valueFromIndex (CodeTie.cfgOf h) b sub = (valueFromIndex h b sub : Int) ∧
+    Gen.Hdr.lowestEquivalentValue (CodeTie.cfgOf h) v = (lowestEquiv h v : Int) ∧
+    Gen.Hdr.highestEquivalentValue (CodeTie.cfgOf h) v = (highestEquiv h v : Int) ∧
+    Gen.Hdr.medianEquivalentValue (CodeTie.cfgOf h) v = (medianEquiv h v : Int) := by
+  intro h
+  have wf := new_wf' hv
+  have hh : h.halfMag ≤ 20 := by
+    obtain ⟨_, h18, _⟩ := subMag_cases s hv.s1 hv.s5
+    show (if subMag s < 1 then 1 else subMag s) - 1 ≤ 20
+    split <;> omega
+  exact ⟨CodeTie.valueFromIndex_tie h b sub, CodeTie.lowestEquivalentValue_tie wf v h63 hh,
+    CodeTie.highestEquivalentValue_tie wf v h63 hh, CodeTie.medianEquivalentValue_tie wf v h63 hh⟩
+
+/-- the quantile theorem restated with hdr.go's own `highestEquivalentValue`: the value at rank `r` is what the
+translated Go function returns for the exact order statistic -/
+theorem go_quantile_is_order_statistic {minV : Int} {maxV s : Nat} (hv : Valid minV maxV s)
+    (vs : List Int) (h63 : ∀ v ∈ vs, v < 2 ^ 63) (r x : Nat) (hx : x < 2 ^ 63)
+    (hos : IsOrderStat (accepted (new minV maxV s) vs) r x) :
+    (valueAtRank (recordAll (new minV maxV s) vs) r : Int) =
+      Gen.Hdr.highestEquivalentValue (CodeTie.cfgOf (new minV maxV s)) x := by
+  rw [(go_value_functions_are_model hv x hx 0 0).2.2.1, quantile_is_order_statistic hv vs h63 r x hos]
 
 end Ftdc.Props.C13
